@@ -403,8 +403,68 @@ class SStr:
     def lower(self):
         return SStr([i.lower() for i in self.items])
 
+    def rfind(self, sub, start=0, end=None):
+        p = SStr.lift(sub)
+        n = len(self) if end is None else min(end, len(self))
+        for i in range(n - len(p), max(start, 0) - 1, -1):
+            if SStr(self.items[i:i + len(p)]) == p:
+                return i
+        return -1
+
     def split(self, sep=None, maxsplit=-1):
-        raise SxUnsupported("split() of a symbolic string")
+        """split at a concrete, non-empty separator: every alignment forks on "is the separator here" """
+        if sep is None or not isinstance(sep, str) or sep == "":
+            raise SxUnsupported("split() of a symbolic string without a concrete separator")
+        m = len(sep)
+        out, cur, i, n = [], [], 0, len(self.items)
+        while i < n:
+            if (maxsplit < 0 or len(out) < maxsplit) and i + m <= n and SStr(self.items[i:i + m]) == sep:
+                out.append(SStr(cur)[:])
+                cur = []
+                i += m
+            else:
+                cur.append(self.items[i])
+                i += 1
+        out.append(SStr(cur)[:])
+        return out
+
+    def __sx_int__(self, base=10):
+        """int(text), base 10: [ws] [sign] digits [ws]; underscores spelled by symbolic characters are not modelled.
+        The value is an uninterpreted integer with the sign of the text, the same for the same characters."""
+        if self.is_concrete():
+            return int(self.concrete(), base)
+        if base != 10:
+            raise SxUnsupported("int(text, base) with a base other than 10")
+        e = _eng.current()
+        for it in self.items:
+            if isinstance(it, SChar) and e.decide(it.code >= 128):
+                raise SxUnsupported("int() of text with a possibly non-ASCII symbolic character")
+        items = list(self.strip().items)
+
+        def cls(it, chars):
+            return (it in chars) if isinstance(it, str) else it._class(chars)
+        i, n, neg = 0, len(items), False
+        if i < n and cls(items[i], "+-"):
+            neg = bool(cls(items[i], "-"))
+            i += 1
+        nd = 0
+        while i < n and cls(items[i], _string.digits):
+            i += 1
+            nd += 1
+        if nd == 0 or i != n:
+            for it in items[i:]:
+                if cls(it, "_"):
+                    raise SxUnsupported("int() of text with '_' spelled by a symbolic character")
+            raise ValueError("invalid literal for int() with base 10: %s" % self)
+        key = ("int",) + tuple(it if isinstance(it, str) else id(it) for it in items)
+        memo = e.scratch.setdefault("numeral_memo", {})
+        if key not in memo:
+            k = e.scratch.get("numeral", 0)
+            e.scratch["numeral"] = k + 1
+            v = e.integer("numeral%d" % k)
+            e.assume(v <= 0 if neg else v >= 0)
+            memo[key] = v
+        return memo[key]
 
     def __repr__(self):
         return "<SStr %r>" % "".join(str(i) for i in self.items)
@@ -433,6 +493,7 @@ class SStr:
         for it in items:
             if isinstance(it, SChar) and e.decide(it.code >= 128):
                 raise SxUnsupported("float() of text with a possibly non-ASCII symbolic character")
+        items = list(self.strip().items)          # float() ignores surrounding white space
         i, n = 0, len(items)
         neg = False
         if i < n and cls(items[i], "+-"):
@@ -465,8 +526,12 @@ class SStr:
                 if cls(it, "_ \t\n\r\x0b\x0cinfatyINFATY"):
                     raise SxUnsupported("float() of text with '_' / white space / inf / nan spelled by symbolic characters")
             raise ValueError("could not convert string to float: %s" % self)
-        k = e.scratch.get("numeral", 0)
-        e.scratch["numeral"] = k + 1
-        v = e.real("numeral%d" % k)
-        e.assume(v <= 0 if neg else v >= 0)
-        return v
+        key = ("float",) + tuple(it if isinstance(it, str) else id(it) for it in items)
+        memo = e.scratch.setdefault("numeral_memo", {})
+        if key not in memo:                       # the same characters denote the same number
+            k = e.scratch.get("numeral", 0)
+            e.scratch["numeral"] = k + 1
+            v = e.real("numeral%d" % k)
+            e.assume(v <= 0 if neg else v >= 0)
+            memo[key] = v
+        return memo[key]
